@@ -912,6 +912,12 @@ func genKey(rnd *rand.Rand, mode string) []byte {
 	for i := range b {
 		b[i] = keyAlphabet[rnd.Intn(len(keyAlphabet))]
 	}
+	if rnd.Intn(6) == 0 { // dot files are ordinary keys (only the ".tmp-" prefix of Set's own temp files is reserved)
+		b[0] = '.'
+		if bytes.HasPrefix(b, []byte(".tmp-")) {
+			b[1] = 'T'
+		}
+	}
 	if rnd.Intn(10) == 0 && n > 1 { // the documented ':' (stripped from the file name)
 		b[1+rnd.Intn(n-1)] = ':'
 	}
@@ -933,6 +939,7 @@ func keyOK(k []byte, mode string, taken map[string]bool) bool {
 }
 
 var nameSeeds = map[string][]string{
+	"empty":          {""},
 	"plain":          {"a", "E2A4F0B2-7C55-4E0A-9C2F-0B6A5D6E1F11", "controller", "Bridge1", "x-1_2"},
 	"colon":          {"3A:F1:2C:9D:00:7B", "a:b", ":"},
 	"slash":          {"a/b", "/", "/etc/passwd", "../x", "dir/", "a/../b"},
@@ -943,7 +950,7 @@ var nameSeeds = map[string][]string{
 	"utf8-multibyte": {"Küche", "寝室", "\U0001F4A1 lamp", "�", "a b", "é"},
 	"not-utf8":       {"\xff", "\x80", "a\xffb", "\xc0\x80", "\xe2\x82", "\xed\xa0\x80", "K\xfcche", "\xf8\x88\x80\x80\x80", "\xfe\xfe\xff\xff"},
 }
-var nameClasses = []string{"plain", "colon", "slash", "dots", "nul", "control", "json-special", "utf8-multibyte", "not-utf8"}
+var nameClasses = []string{"empty", "plain", "colon", "slash", "dots", "nul", "control", "json-special", "utf8-multibyte", "not-utf8"}
 
 func genName(rnd *rand.Rand) []byte {
 	switch x := rnd.Intn(100); {
@@ -1574,7 +1581,7 @@ func main() {
 		"at least twice or is read through a re-opened store (distinct by history and position)")
 	r.Assume("the directory is on a case-sensitive POSIX file system and nobody else writes into it")
 	r.Assume("storage keys: file-name-safe alphabet [A-Za-z0-9._-] plus the documented ':' (stripped by design; two keys of a history never alias, listings are compared after stripping ':'); no '/', NUL, empty, '.', '..'")
-	r.Assume("entity names: arbitrary bytes of length 1..100; the empty name is treated as out of scope")
+	r.Assume("entity names: arbitrary bytes of length 0..100 (the empty name included); raw storage keys: file-name-safe, may start with a dot, but the prefix \".tmp-\" is reserved for Set's own temporary files")
 	r.Assume("Delete of a key that is not there may return an error or nil; the order of listings and duplicates in them are not judged")
 	r.Assume("in mixed histories raw storage keys never end in '.entity' and file names ending in '.entity' are ignored in KeysWithSuffix results (they belong to the database in the same directory)")
 
@@ -1616,7 +1623,8 @@ func main() {
 			r.Inconclusive(fmt.Sprintf("generator produced %d operations", len(h.Ops)))
 			break
 		}
-		r.Eval()
+		r.Evals(len(h.Ops)) // a case = one operation of a history checked against the model
+		r.Count("histories", 1)
 		r.Count("histories_"+mode, 1)
 		r.Count("histories_exec_"+execMode, 1)
 		r.Count("operations", len(h.Ops))
